@@ -47,6 +47,9 @@ func checkC03(c *Ctx) {
 	c01IDProvenance(c, false)
 	poolAliasRule(c, "R-frame-owned")
 	poolResetRule(c, "R-pool-reset")
+	c03EncodeChecked(c)
+	// frames written by concurrent senders to one stream must not interleave (C05/C09's rule): an interleaved frame is malformed
+	streamWriteLocked(c, "R-stream-locked", true)
 	c.R.Min("R-id-echo", 40)
 }
 
@@ -1853,4 +1856,130 @@ func verbAt(verbs []byte, i int) byte {
 		return verbs[i]
 	}
 	return '?'
+}
+
+// c03EncodeChecked (R-encode-checked): a value of interface type that comes in as a parameter (a handler's result, a
+// typed tool's output) may be unencodable (NaN, a channel, a cyclic map). Where the library encodes such a value with
+// json.Marshal, the bytes are used only on the err == nil edge: used regardless, a failed encoding yields nil bytes —
+// as a json.RawMessage that is the JSON text `null` inside an otherwise successful answer, where the property demands
+// an internal error.
+func c03EncodeChecked(c *Ctx) {
+	n := 0
+	for _, fn := range c.P.LibFns {
+		if clientSide(c, fn) {
+			continue
+		}
+		var pd *flow.PostDom
+		cnt := 0
+		ir.EachInstr(fn, func(_ *ssa.BasicBlock, _ int, in ssa.Instruction) {
+			call, ok := in.(*ssa.Call)
+			if !ok || ir.CallName(call) != "encoding/json.Marshal" || call.Referrers() == nil {
+				return
+			}
+			arg := call.Call.Args[0]
+			for {
+				if ci, ok := arg.(*ssa.ChangeInterface); ok {
+					arg = ci.X
+					continue
+				}
+				break
+			}
+			if _, isIface := arg.Type().Underlying().(*types.Interface); !isIface {
+				return
+			}
+			if _, isParam := arg.(*ssa.Parameter); !isParam {
+				return
+			}
+			var data, errv ssa.Value
+			for _, r := range *call.Referrers() {
+				if ex, ok := r.(*ssa.Extract); ok {
+					if ex.Index == 0 {
+						data = ex
+					} else {
+						errv = ex
+					}
+				}
+			}
+			if data == nil || data.Referrers() == nil {
+				return
+			}
+			n++
+			cnt++
+			if pd == nil {
+				pd = flow.NewPostDom(fn)
+			}
+			bad := ""
+			errOK := func(g flow.Guard, ev ssa.Value) bool {
+				v, op, ok := nilCompare(g.If.Cond)
+				return ok && ev != nil && v == ev && ((op == token.EQL && g.Branch) || (op == token.NEQ && !g.Branch))
+			}
+			var checkUses func(d, ev ssa.Value, depth int)
+			checkUses = func(d, ev ssa.Value, depth int) {
+				if d.Referrers() == nil || depth > 3 {
+					return
+				}
+				for _, u := range *d.Referrers() {
+					if phi, ok := u.(*ssa.Phi); ok {
+						pb := phi.Block()
+						for i, e := range phi.Edges {
+							if e != d || i >= len(pb.Preds) {
+								continue
+							}
+							pred := pb.Preds[i]
+							// (1) the edge itself is the err == nil edge of a test in the predecessor
+							edgeOK := false
+							if ifi, ok := pred.Instrs[len(pred.Instrs)-1].(*ssa.If); ok {
+								if v, op, ok := nilCompare(ifi.Cond); ok && ev != nil && v == ev {
+									okSucc := 0
+									if op == token.NEQ {
+										okSucc = 1
+									}
+									if pred.Succs[okSucc] == pb {
+										edgeOK = true
+									}
+								}
+							}
+							for _, g := range append(pd.ControlDepsTransitive(pred), flow.Guards(fn, pred)...) {
+								if errOK(g, ev) {
+									edgeOK = true
+								}
+							}
+							if edgeOK {
+								continue
+							}
+							// (2) the error travels with the bytes: a phi of the errors in the same block, same edge
+							var q *ssa.Phi
+							for _, bi := range pb.Instrs {
+								if cand, ok := bi.(*ssa.Phi); ok && cand != phi && i < len(cand.Edges) && cand.Edges[i] == ev {
+									q = cand
+								}
+							}
+							if q != nil {
+								checkUses(phi, q, depth+1)
+							} else {
+								bad = c.Pos(fn.Pos())
+							}
+						}
+						continue
+					}
+					guarded := false
+					for _, g := range append(pd.ControlDepsTransitive(u.Block()), flow.Guards(fn, u.Block())...) {
+						if errOK(g, ev) {
+							guarded = true
+						}
+					}
+					if !guarded {
+						bad = c.Pos(u.Pos())
+					}
+				}
+			}
+			checkUses(data, errv, 0)
+			c.R.Check(bad == "", "R-encode-checked", sprintf("bytes of json.Marshal #%d in %s", cnt, fname(fn)), c.Pos(call.Pos()),
+				"used only where the encoding succeeded",
+				sprintf("%s encodes a caller-supplied value and uses the bytes (at %s) also when json.Marshal failed: an unencodable result becomes `null` inside a successful answer instead of an internal error", fname(fn), bad))
+		})
+	}
+	if n == 0 {
+		c.R.Hold("R-encode-checked", "no caller-supplied interface value is encoded with json.Marshal on the server side", "", "")
+	}
 }
